@@ -158,30 +158,34 @@ func (srv *simServer) departed(l liveSeq) {
 	slot := l.seq.cache
 	r.finalRec = inputTokens(slot.Inputs)
 	r.haveFinal = true
+	debugf("%s: req#%d left slot %d: reason=%d numPredicted=%d numPredict=%d record=[%s]", srv.name, r.id, slot.Id, l.seq.doneReason, l.seq.numPredicted, l.seq.numPredict, tokensString(r.finalRec))
 	ref := srv.rec.seq(slot.Id)
 	if ref.undefined {
 		verifsim.Probe("record_check_skipped_undefined")
 		return
 	}
-	if msg := compareRecord(r.finalRec, ref); msg != "" {
+	// After a stop string the record is cut back to the returned text while the cache
+	// still holds the cut entries at the end (they are erased by the next LoadCacheSlot,
+	// which the at-Forward comparison then checks exactly): a tail beyond the record is allowed here.
+	if msg := compareRecord(r.finalRec, ref, true); msg != "" {
 		srv.w.violate("C07", "slot-record", "slot-record:after-request", "%s: after %s left slot %d its recorded inputs differ from what the cache was given: %s\n  record: [%s]\n  ops on the cache sequence: %v",
 			srv.name, r, slot.Id, msg, tokensString(r.finalRec), ref.ops)
 	}
 }
 
 // compareRecord compares a slot record with the reference content of its cache sequence.
-func compareRecord(rec []int32, ref *refSeq) string {
-	if len(rec) != len(ref.ents) {
+func compareRecord(rec []int32, ref *refSeq, allowTail bool) string {
+	if len(rec) > len(ref.ents) || (!allowTail && len(rec) != len(ref.ents)) {
 		return fmt.Sprintf("record has %d inputs, the cache sequence holds %d entries", len(rec), len(ref.ents))
 	}
 	// ref entries are in insertion order; positions must be exactly 0..n-1
-	seen := make([]bool, len(rec))
+	seen := make([]bool, len(ref.ents))
 	for _, e := range ref.ents {
-		if e.pos < 0 || int(e.pos) >= len(rec) || seen[e.pos] {
-			return fmt.Sprintf("the cache sequence holds an entry at position %d (record length %d)", e.pos, len(rec))
+		if e.pos < 0 || int(e.pos) >= len(seen) || seen[e.pos] {
+			return fmt.Sprintf("the cache sequence holds an entry at position %d twice or beyond its %d entries", e.pos, len(ref.ents))
 		}
 		seen[e.pos] = true
-		if rec[e.pos] != e.tok {
+		if int(e.pos) < len(rec) && rec[e.pos] != e.tok {
 			return fmt.Sprintf("position %d: record says token %d, the cache was given token %d", e.pos, rec[e.pos], e.tok)
 		}
 	}
@@ -255,7 +259,7 @@ func (srv *simServer) checkRows(batch input.Batch, toks []float32, vis [][][]vis
 			// oracle (3) at Forward: record + pending == what the cache was given
 			ref := srv.rec.seq(slot)
 			if !ref.undefined {
-				if msg := compareRecord(info.want, ref); msg != "" {
+				if msg := compareRecord(info.want, ref, false); msg != "" {
 					srv.w.violate("C07", "slot-record", "slot-record:forward", "%s: slot %d: recorded inputs plus this batch differ from what the cache was given: %s\n  record+pending: [%s]\n  ops on the cache sequence: %v",
 						srv.name, slot, msg, tokensString(info.want), ref.ops)
 				}
@@ -597,8 +601,9 @@ func (w *runWorld) checkStream(srv *simServer, r *reqState) {
 				}
 			}
 			// the record at the last Forward holds the first n-1 generated tokens
-			wantMin := (n - 1) - mHigh
-			wantMax := (n - 1) - mLow
+			// (a context shift may already have discarded some of them: no more than the record holds can go)
+			wantMin := min((n-1)-mHigh, len(r.lastRec))
+			wantMax := min((n-1)-mLow, len(r.lastRec))
 			if trimmed < wantMin || trimmed > wantMax {
 				w.violate("C14", "stream", "stream:P6:record-not-trimmed-to-returned-text", "after the stop the slot record was trimmed by %d inputs; %d..%d of the %d generated tokens had their text returned, so %d..%d must go\n  %s", trimmed, mLow, mHigh, n, wantMin, wantMax, shape())
 			} else if trimmed > 0 {
